@@ -86,7 +86,10 @@ class Token:
 
     def __eq__(self, other):
         if isinstance(other, str):
-            if self._token_type.has_string():
+            # The text of a piece of syntax. A quoted string is never one,
+            # whatever its content spells.
+            if (self._token_type.has_string()
+                    and self._token_type is not TokenTypes.LITERAL_STRING):
                 return self._content == other
             else:
                 return False
@@ -122,6 +125,12 @@ class Token:
 
     def is_any(self, *token_types) -> bool:
         return self._token_type in (token_types)
+
+    def is_mark(self, *marks) -> bool:
+        # True if this is one of the given operators or punctuation marks;
+        # "-" or "{" between quotes is a string, not a mark.
+        return (self._token_type is not TokenTypes.LITERAL_STRING
+                and self._content in marks)
 
     @property
     def token_type(self):
